@@ -52,7 +52,7 @@ def generate(rng, n, tier):
             ts[1] = ts[0]; ms[1] = ms[0]                      # zero elapsed time at the first end
             if rng.random() < 0.5:
                 pts[1] = list(pts[0])
-        out.append({'pts': pts, 'z': zs, 't': ts, 'ms': ms})
+        out.append({'pts': pts, 'z': zs, 't': ts, 'ms': ms, 'preds': rng.random() < 0.2})
     # a few long tracks (more than 256 fixes: beyond the small-integer cache of CPython, and long enough for an index arithmetic slip to show);
     # they go through the oracle only (the model tie carries the full distance matrix)
     for k in ([258, 300] if tier == 'quick' else [257, 258, 259, 300, 400, 512]):
@@ -84,6 +84,13 @@ def run_impl(case):
     tr = mktrack(case)
     n = tr.size()
     pos0 = [(o.position.getX(), o.position.getY(), o.position.getZ(), str(o.timestamp), o.timestamp.ms) for o in tr]
+    if case.get('preds'):                         # the leg lengths are already on the track under the name the computation uses, derived with the
+        from tracklib.core.operators import Operator   # operator algebra (sqrt(D(x)^2 + D(y)^2): undefined at the first fix); an earlier abscissa was dropped
+        tr.operate(Operator.DIFFERENTIATOR, 'x', 'dx'); tr.operate(Operator.DIFFERENTIATOR, 'y', 'dy')
+        tr.operate(Operator.SQUARE, 'dx', 'dx2'); tr.operate(Operator.SQUARE, 'dy', 'dy2')
+        tr.operate(Operator.ADDER, 'dx2', 'dy2', 'dx2'); tr.operate(Operator.SQRT, 'dx2', 'ds')
+        for nm in ('dx', 'dy', 'dx2', 'dy2'):
+            tr.removeAnalyticalFeature(nm)
     ret = ci.computeAbsCurv(tr)
     names1 = tr.getListAnalyticalFeatures()
     ac1 = enc(tr['abs_curv'])
@@ -103,8 +110,8 @@ def coq_case(case, obs):
     if 'exc' in obs:
         return None
     n = len(case['pts'])
-    if n > 40:
-        return None
+    if n > 40 or any(v is None for v in obs['ac']):
+        return None                               # an undefined abscissa is not a value of the model: left to the oracle
     return '(%d%%nat, %s, %s, %s, %s)' % (n, coq_list(coq_list(q(v) for v in r) for r in obs['D']), coq_list(q(v) for v in obs['T']),
                                        coq_list(q(v) for v in obs['ac']), coq_list(optq(v) for v in obs['speed']))
 
